@@ -334,6 +334,12 @@ def check(args):
             if j == 3 and name in W3_IMPORTERS:
                 # sources that import a W3C namespace by its well-known location, copied below a mirror-like path
                 env = dict(E0, hashseed=0, source_copy="mirror/www.w3.org/schemas", route=prng.choice(ROUTES))
+            if j == 4 and name.startswith("dtd"):
+                # an earlier generation from ANOTHER document type definition in the same interpreter
+                others = [s_ for s_ in srcs if s_[0].startswith("dtd") and s_[0] != name and not os.path.isdir(s_[1])]
+                if others:
+                    o = prng.choice(others)
+                    env = dict(E0, hashseed=0, history=[{"source": o[1], "recursive": False, "params": {"package": "gen", "structure_style": "filenames"}, "route": "api"}])
             if j == 1:
                 env = dict(E0, hashseed=prng.randrange(1, 1 << 31))  # hash seed alone
             if j == 2 and params.get("include_header"):
